@@ -15,7 +15,8 @@ RULE = ("Histories (1-40 ops) of add(id, priority)/remove(id)/step(n) (one case 
         "a sorted-list model (key = -priority, registration sequence); plus the exhaustive box. Non-trivial: at some "
         "executed timestep >= 3 systems with >= 2 priority levels and >= 1 tie are registered, or an id is removed and "
         "re-registered. Distinct = digest of the operation list."
-        " Added in rounds 19-24: a quarter of the plain histories use identifiers that are str objects of a subclass.")
+        " Added in rounds 19-24: a quarter of the plain histories use identifiers that are str objects of a subclass."
+        " Round 25: windows may have a finite last timestep.")
 EXHAUSTIVE_DOMAIN = ("every registration sequence of 1..5 systems over priorities {-1,0,2} (quick: 1..4), each also with "
                      "every single remove-and-re-add (index x new priority), one timestep after every op")
 ASSUMPTIONS = ["priorities are Python ints fixed at registration", "most systems use the default always-on window; one in three cases contains systems with a later start or a frequency of 2 (they then run only when due, in the same relative order)",
@@ -35,7 +36,7 @@ def _op():
                                  "kind": st.sampled_from(["sys", "sys", "sys", "coll", "colldef", "falsy"]),
                                  "np": st.sampled_from([None, None, None, None, "u8", "i8", "i64", "u64", "u16"]),
                                  "same": st.sampled_from([False, False, True]),
-                                 "win": st.sampled_from([None] * 6 + [[1, 1], [2, 1], [3, 2], [0, 2], [5, 1]]),
+                                 "win": st.sampled_from([None] * 6 + [[1, 1], [2, 1], [3, 2], [0, 2], [5, 1], [0, 1, 0], [0, 1, 1], [1, 1, 2], [0, 2, 2]]),
                                  "alias": st.sampled_from([False] * 7 + [True])})
     rem = st.fixed_dictionaries({"op": st.just("remove"), "id": st.integers(0, POOL - 1), "via": st.sampled_from(["remove_system", "clean_up"]),
                                  "alias": st.sampled_from([False] * 7 + [True])})
@@ -208,6 +209,8 @@ def run_case(case):
             given, prio = as_priority(op, prio)
             win = op.get("win")
             wkw = {"start": max(0, int(win[0])), "frequency": max(1, int(win[1]))} if win else {}
+            if win and len(win) > 2 and win[2] is not None:
+                wkw["end"] = int(win[2])          # a finite last timestep: afterwards the system stays registered (and keeps its place) but does not run
             if op.get("kind") == "coll":
                 obj = RecCollector(sid, model, log, token, priority=given, **wkw)
             elif op.get("kind") == "colldef":
@@ -280,7 +283,7 @@ def run_case(case):
             by_token = {t_: o_ for (o_, _, _, t_) in live.values()}
             exp_all = []                    # systems with a start / frequency window only run when due - in the SAME relative order
             for ts in range(t_before, t_before + n):
-                exp_all += [t_ for t_ in order_now if by_token[t_].start <= ts and (ts - by_token[t_].start) % by_token[t_].frequency == 0]
+                exp_all += [t_ for t_ in order_now if by_token[t_].start <= ts <= by_token[t_].end and (ts - by_token[t_].start) % by_token[t_].frequency == 0]
             got = [t for (_, t) in log]
             exp = order_now
             if got != exp_all:
